@@ -4,7 +4,9 @@ go 1.23.0
 
 require (
 	github.com/cossacklabs/acra v0.0.0
+	github.com/cossacklabs/pg_query_go/v5 v5.1.0
 	github.com/cossacklabs/themis/gothemis v0.14.0
+	github.com/jackc/pgx/v5 v5.7.2
 	github.com/sirupsen/logrus v1.6.0
 )
 
@@ -12,12 +14,10 @@ require (
 	contrib.go.opencensus.io/exporter/jaeger v0.2.1 // indirect
 	github.com/beorn7/perks v1.0.1 // indirect
 	github.com/cespare/xxhash/v2 v2.2.0 // indirect
-	github.com/cossacklabs/pg_query_go/v5 v5.1.0 // indirect
 	github.com/go-redis/redis/v7 v7.0.1 // indirect
 	github.com/go-sql-driver/mysql v1.5.0 // indirect
 	github.com/golang/groupcache v0.0.0-20210331224755-41bb18bfe9da // indirect
 	github.com/golang/protobuf v1.5.3 // indirect
-	github.com/jackc/pgx/v5 v5.7.2 // indirect
 	github.com/lib/pq v1.10.9 // indirect
 	github.com/matttproud/golang_protobuf_extensions v1.0.1 // indirect
 	github.com/philhofer/fwd v1.1.1 // indirect
